@@ -357,6 +357,10 @@ def run(ck):
     n2 = enqueue_rules(ck, agg, qf)
     n3 = deq_peek(ck, agg, qf)
     n4 = move_ctor(ck, agg, qf)
+    # "frames leave the queue with the fields and bytes they had when enqueued": the private copy is made through frame.pack() /
+    # unpack() - the codec must not clip or alter it (R11.1-R11.8, shared with C11)
+    from . import c11
+    c11.header_rules(ck, agg)
     agg.flush()
     ck.floor("R12.1", "mutation sites and public methods examined", n1, 5)
     ck.floor("R12.4", "enqueue scenarios on the capacity grid", n2, 16)
